@@ -22,7 +22,7 @@ def make_case(prop: str, seed: int, idx: int, tier: str) -> dict:
     ops = gen.gen_schedule(rng, cfg)
     return {
         "harness": env.HARNESS_VERSION, "property": prop, "seed": seed, "idx": idx, "run_seed": run_seed,
-        "tier": tier, "props": [prop], "opts": {"own": prop, "query_every": 1 if tier == "thorough" else 5},
+        "tier": tier, "props": [prop], "opts": {"own": prop, "tier": tier, "query_every": 1 if tier == "thorough" else 5},
         "swarm": {"steps": cfg["steps"], "f1": cfg["f1"], "force": cfg["force"], "weights": {k: round(v, 2) for k, v in cfg["weights"].items() if v}},
         "world": w, "ops": ops,
     }
@@ -63,6 +63,7 @@ def run_case(case: dict, keep_log: bool = False) -> dict:
         res["steps"] = sim.step_no + 1
         res["stats"] = sim.stats
         res["probes"] = sim.probes
+        res["known_hits"] = sim.known_hits
         res["cases"] = sorted(sim.cases)
         res["word"] = "".join(sim.word)
         res["digest"] = hashlib.sha256(json.dumps(sim.log, default=repr, sort_keys=True).encode()).hexdigest()
